@@ -2,8 +2,8 @@
    Statements only; proofs in Proofs/ConnProofs.v.  Gen_Conn is regenerated from the
    live assembler on every run. *)
 From Coq Require Import ZArith List Bool String.
-From NQ Require Import Sdk.Conn Proofs.ConnProofs.
-From Gen Require Import Gen_Conn.
+From NQ Require Import Sdk.Conn Proofs.ConnProofs Nv.Transpile Proofs.TranspileProofs.
+From Gen Require Import Gen_Conn Gen_NvBlocks.
 Import ListNotations.
 Open Scope string_scope.
 
@@ -36,6 +36,38 @@ Proof. exact (compile_then_commit_state gen_exempt). Qed.
    re-declares an array whose results an earlier subroutine returned *)
 Theorem C06_no_redeclare : forall l, no_redeclare (sent (run_ops gen_exempt conn0 l)).
 Proof. exact (no_redeclare_any_history gen_exempt). Qed.
+
+(* with the NV transpile pass (simulation mode): filling the rotation immediates and
+   transpiling commute, for ALL programs of the C08 transpiler model at the regenerated
+   decomposition table.  A Template is represented by the (negative) integer standing for
+   it; instantiation maps those codes to values and leaves every concrete immediate
+   alone — in particular all immediates the decompositions introduce (they are >= 0).
+   (Hardware angle mode is excluded: the real transpiler reads `.value` of the immediate
+   there, which a Template does not have.) *)
+Theorem C06_table_immediates_nonneg : nonneg_table gen_tables = true.
+Proof. vm_compute. reflexivity. Qed.
+
+Theorem C06_transpile_instantiate_commute : forall (vn vd : Z -> Z) debug p,
+  let f := fun n => if (n <? 0)%Z then vn n else n in
+  let g := fun d => if (d <? 0)%Z then vd d else d in
+  let c := mkConfig debug false gen_tables in
+  transpile c (map (map_rot f g) p) = map_res f g (transpile c p).
+Proof.
+  intros vn vd debug p f g c. apply transpile_instantiate_commute; [reflexivity|].
+  apply nonneg_table_fixes; [exact C06_table_immediates_nonneg | |];
+    intros x Hx; unfold f, g; destruct (Z.ltb_spec x 0); [exfalso; apply (Z.lt_irrefl x); eapply Z.lt_le_trans; eassumption | reflexivity |
+                                                        exfalso; apply (Z.lt_irrefl x); eapply Z.lt_le_trans; eassumption | reflexivity].
+Qed.
+
+Example C06_commute_nonvacuous :
+  let f := fun n => if (n <? 0)%Z then 5%Z else n in
+  let c := mkConfig false false gen_tables in
+  let p := [ISet (mkReg BQ 0) 1; ISet (mkReg BQ 1) 2; IGate2 Cnot (mkReg BQ 0) (mkReg BQ 1);
+            IRot AX (mkReg BQ 0) (-1) 4; IBr1 Bez (mkReg BR 0) 5] in
+  match transpile c (map (map_rot f (fun d => d)) p), transpile c p with
+  | Ok a, Ok b => Nat.ltb 30 (List.length a) && Nat.eqb (List.length a) (List.length b)
+  | _, _ => false end = true.
+Proof. vm_compute. reflexivity. Qed.
 
 (* non-vacuity: a templated rotation and a measurement into an array, precompiled,
    followed by a second measurement that is flushed *)
@@ -72,3 +104,4 @@ Proof. vm_compute. reflexivity. Qed.
 Print Assumptions C06_instantiate_commutes.
 Print Assumptions C06_compile_then_commit_state.
 Print Assumptions C06_no_redeclare.
+Print Assumptions C06_transpile_instantiate_commute.
